@@ -19,7 +19,8 @@ META = {
     'text': 'For every letter (each output, one format per data source incl. absent/present cgroup selectors, each filter with and without arguments, valid/invalid/duplicated options, exec shapes, '
             'process states with handlers/masks/umask/extra descriptors) the digest of the process (fds+targets, environ, cwd, umask, sigmask, 64 dispositions, all writable library symbols, live heap) must be '
             'identical before the call, at the moment the real exec is invoked, and after it returned; 200 repetitions must balance the heap on every call; all ordered pairs are run; '
-            'and every single I/O fault on the rich configurations must leave descriptor table and heap balanced after the faulted call and after a clean call following it.',
+            'and every single I/O fault on the rich configurations must leave descriptor table and heap balanced after the faulted call and after a clean call following it.'
+            " Caller states (preludes): signal handlers/masks/pending signals, ids without entries, descriptors above 1023, session leader without controlling terminal, open database walks, stdio in use, non-blocking std streams; the digest includes F_GETFL per descriptor, pending signals, stdio state and unflushed bytes, and a counter of non-reentrant libc calls (incl. libc's utmp reader).",
     'note': 'Heap accounting interposes malloc/calloc/realloc/free for the whole process (plain build); libc-internal caches settle in warm-up calls. The emitted record is the only allowed effect.',
 }
 
